@@ -132,6 +132,7 @@ func checkC16(p *Prog, r *Report) {
 	r.rule("C16.2 Normalize returns only the receiver or its inverse, and the receiver whenever the inverse name is empty")
 	r.rule("C16.3 direction choice evaluated abstractly over the 3x3 orderings of (FromType?ToType, FromName?ToName): a relationship and its inverse must take opposite branches unless both ends are identical; comparisons of concatenated keys are not injective and cannot be evaluated (R8)")
 	r.rule("C16.4 String builds its text only from the normalised value")
+	r.rule("C16.listing-fresh: Schema.Rels and the functions it calls read no field of the schema other than Types, so the listing depends on the current types only, not on the history of edits")
 	r.rule("C16.5 Schema.Rels: values collected from a map are sorted before being returned (R7) by a comparator over an injective key (R8); the set is keyed injectively")
 	r.notCovered("idempotence of Normalize and the listing laws of Schema.Rels as value-level statements beyond what clauses 1-5 imply")
 	r.notCovered("relationships that are their own inverse (outside the property's domain)")
@@ -546,7 +547,31 @@ func lastStoreIs(alloc *ssa.Alloc, at ssa.Instruction, call *ssa.Call) bool {
 // checkRelsSorted: in Schema.Rels, the slice filled from a map range is
 // passed to a sort before it is returned; the comparator key is injective; the
 // map key used to build the set is injective.
+// checkRelsFresh: the listing is a function of the schema's types alone: Rels
+// and what it calls read no Schema field other than Types (no memoised list
+// that could outlive a later edit).
+func checkRelsFresh(p *Prog, r *Report, rels *ssa.Function) {
+	n := 0
+	for _, g := range p.cg.Reachable(rels) {
+		if len(g.Params) == 0 || !strings.HasSuffix(typeStr(g.Params[0].Type()), "*jsonapi.Schema") && typeStr(g.Params[0].Type()) != "*Schema" {
+			continue
+		}
+		recv := g.Params[0]
+		eachInstr(g, func(ins ssa.Instruction) {
+			fa, ok := ins.(*ssa.FieldAddr)
+			if !ok || fa.X != ssa.Value(recv) {
+				return
+			}
+			n++
+			_, fl := fieldRef(fa.X, fa.Field)
+			r.decide(fl == "Types", "C16.listing-fresh", funcName(g)+":reads:"+fl, p.pos(fa.Pos()), "reads the schema's types only", funcName(g)+" reads Schema."+fl+": the listing is not computed from the current types alone and can be stale after an edit that does not refresh it")
+		})
+	}
+	r.floor("schema field reads under Rels", n, 1)
+}
+
 func checkRelsSorted(p *Prog, r *Report, rels *ssa.Function) {
+	checkRelsFresh(p, r, rels)
 	fns := p.cg.Reachable(rels)
 	mapRanges := 0
 	for _, f := range fns {
